@@ -34,6 +34,6 @@ run_one() {
   esac
 }
 export -f run_one
-sort -u "$work/jobs" | xargs -P "$J" -L 1 bash -c 'run_one "$0" "$1" "$2" "$3"' | sort | tee "$work/results"
+sort -u "$work/jobs" | grep -E "^(${KIND:-.*}) " | xargs -P "$J" -L 1 bash -c 'run_one "$0" "$1" "$2" "$3"' | sort | tee "$work/results"
 echo "---- $(grep -c '^PASS' "$work/results") pass, $(grep -c '^FAIL' "$work/results") fail, $(grep -c '^SKIP' "$work/results") skipped"
 grep -q '^FAIL' "$work/results" && exit 1 || exit 0
